@@ -256,6 +256,9 @@ class ControllerApplication:
         else:
             # iterate over a snapshot: a callback may unsubscribe itself
             for subscriber in list(self._subscribers_request):
+                if subscriber not in self._subscribers_request:
+                    # unsubscribed in the meantime
+                    continue
                 subscriber(src_address, dest_address, pgn)
 
     def send_message(self, priority, parameter_group_number, data):
